@@ -512,3 +512,117 @@ Proof.
   split; [exact glob_clause_fixed|]. split; [exact lookup_clause_fixed|].
   split; [exact agree_clause_fixed|]. split; [exact (wf_doc_accepted fixed)|exact (gate_clause_any fixed)].
 Qed.
+
+(* ---------------------------------------------------------------- totality (any variant, any document) *)
+Definition ok_or_panic {A} (r : res A) : Prop := (exists a, r = Ok a) \/ (exists k, r = Panic k).
+
+Lemma last_match_shape {A} (pred : A -> res bool) : forall l,
+  (forall x, In x l -> ok_or_panic (pred x)) ->
+  forall i acc, ok_or_panic (last_match pred l i acc).
+Proof.
+  induction l as [|x l IH]; intros H i acc; cbn [last_match].
+  - left. eexists. reflexivity.
+  - assert (H' : forall y, In y l -> ok_or_panic (pred y)) by (intros y Hy; apply H; right; exact Hy).
+    destruct (H x (or_introl eq_refl)) as [[b E]|[k E]]; rewrite E.
+    + destruct b; apply IH; exact H'.
+    + right. eexists. reflexivity.
+Qed.
+
+Lemma ll_iter_files_has v d p : In p (ll_iter_files v d) -> has p k_Files = true.
+Proof. unfold ll_iter_files. intro H. apply filter_In in H. tauto. Qed.
+Lemma ll_iter_licenses_has v d p : In p (ll_iter_licenses v d) -> has p k_License = true.
+Proof.
+  unfold ll_iter_licenses. intro H. apply filter_In in H. destruct H as [_ H].
+  apply andb_true_iff in H. tauto.
+Qed.
+
+Lemma ll_find_files_shape v d path : ok_or_panic (ll_find_files v d path).
+Proof.
+  unfold ll_find_files. apply last_match_shape. intros p Hp.
+  apply ll_iter_files_has in Hp. apply has_true in Hp. destruct Hp as [x Ex].
+  unfold ll_matches, ll_files. rewrite Ex. cbn [bind]. apply any_match_shape.
+Qed.
+
+Lemma ll_find_license_by_name_ok v d n : exists a, ll_find_license_by_name v d n = Ok a.
+Proof.
+  unfold ll_find_license_by_name.
+  destruct (find _ (ll_iter_licenses v d)) as [q|] eqn:Eq; [|eexists; reflexivity].
+  apply find_some in Eq. destruct Eq as [Hin _]. apply ll_iter_licenses_has in Hin.
+  apply has_true in Hin. destruct Hin as [x Ex]. unfold ll_lp_license. rewrite Ex. eexists. reflexivity.
+Qed.
+
+Lemma ll_find_license_for_file_shape v d path : ok_or_panic (ll_find_license_for_file v d path).
+Proof.
+  unfold ll_find_license_for_file.
+  destruct (ll_find_files_shape v d path) as [[r E]|[k E]]; rewrite E; cbn [bind];
+    [|right; eexists; reflexivity].
+  destruct r as [[j p]|]; [|left; eexists; reflexivity].
+  destruct (ll_fp_license p) as [l|]; [|left; eexists; reflexivity].
+  destruct (lic_text l); [left; eexists; reflexivity|].
+  destruct (lic_name l) as [n|]; [|left; eexists; reflexivity].
+  left. apply ll_find_license_by_name_ok.
+Qed.
+
+Lemma ly_find_files_shape v c path : ok_or_panic (ly_find_files v c path).
+Proof.
+  unfold ly_find_files. apply last_match_shape. intros fp _. unfold ly_matches. apply any_match_shape.
+Qed.
+
+Lemma ly_find_license_for_file_shape v c path :
+  ok_or_panic (ly_find_license_for_file v c path) /\ ly_find_license_for_file v c path <> Panic 12%N.
+Proof.
+  unfold ly_find_license_for_file.
+  destruct (ly_find_files_shape v c path) as [[r E]|[k E]]; rewrite E; cbn [bind].
+  - destruct r as [[j fp]|]; [|split; [left; eexists; reflexivity|discriminate]].
+    destruct (lf_license fp); cbn [lic_text lic_name]; (split; [left; eexists; reflexivity|discriminate]).
+  - split; [right; eexists; reflexivity|].
+    (* the only panics find_files can propagate are those of glob_to_regex: sites 1 and 2 *)
+    intro H. injection H as ->.
+    unfold ly_find_files in E. clear -E.
+    revert E. generalize 0 (@None (nat * lfiles)). induction (c_files c) as [|fp l IH]; intros i acc E.
+    + discriminate.
+    + cbn [last_match] in E. destruct (ly_matches v fp path) as [[|]| |k|] eqn:Em; try discriminate.
+      * exact (IH _ _ E).
+      * exact (IH _ _ E).
+      * injection E as ->. unfold ly_matches in Em. clear -Em.
+        induction (lf_files fp) as [|g fs IHf]; [discriminate|].
+        cbn [any_match] in Em. unfold glob_match in Em.
+        destruct (glob_to_regex g) as [r| |k|] eqn:Eg; cbn [bind] in Em.
+        -- destruct (rmatch (v_dotall v) r path); [discriminate|exact (IHf Em)].
+        -- discriminate.
+        -- injection Em as ->. clear -Eg.
+           assert (Hs : forall n g, (length g <= n)%nat -> glob_to_regex g <> Panic 12%N).
+           { clear. induction n as [|n IH]; intros g Hl.
+             - destruct g; [discriminate|cbn in Hl; lia].
+             - destruct g as [|c g]; [discriminate|]. cbn [length] in Hl. cbn [glob_to_regex].
+               assert (Hr : forall a g', (length g' <= n)%nat -> rcons a (glob_to_regex g') <> Panic 12%N).
+               { intros a g' Hg'. specialize (IH g' Hg'). unfold rcons, rmap, bind.
+                 destruct (glob_to_regex g'); congruence. }
+               destruct (c =? 42)%N; [apply Hr; lia|]. destruct (c =? 63)%N; [apply Hr; lia|].
+               destruct (c =? 92)%N; [|apply Hr; lia].
+               destruct g as [|x g']; [discriminate|]. cbn [length] in Hl.
+               destruct (is_glob_special x); [apply Hr; lia|discriminate]. }
+           exact (Hs (length g) g (le_n _) Eg).
+        -- discriminate.
+Qed.
+
+(* ---------------------------------------------------------------- the lossy reader against the document *)
+Theorem ly_lookup d c path : ly_of_doc fixed d = Ok c -> doc_valid d ->
+  exists r ans,
+    is_last_such (fun p => para_matches p path) (files_paragraphs d) r /\
+    licence_answer d r ans /\
+    rmap (option_map fst) (ly_find_files fixed c path) = Ok (option_map fst r) /\
+    (forall j fp, ly_find_files fixed c path = Ok (Some (j, fp)) ->
+                  exists p, r = Some (j, p) /\ files_conv fixed p fp) /\
+    ly_find_license_for_file fixed c path = Ok ans.
+Proof.
+  intros E V. destruct (ll_license_rule d path V) as [r [ans [Er [Hr [Ea Hl]]]]].
+  exists r, ans. split; [exact Hr|]. split; [exact Hl|].
+  pose proof (find_files_agree d c path E) as F. rewrite Er in F.
+  rewrite <- (find_license_for_file_agree d c path E).
+  destruct (ly_find_files fixed c path) as [[[j fp]|]|e|n|]; destruct r as [[i p]|]; cbn [found_rel] in F;
+    try contradiction.
+  - destruct F as [-> R]. split; [reflexivity|]. split; [|exact Ea].
+    intros j' fp' H. injection H as <- <-. exists p. auto.
+  - split; [reflexivity|]. split; [|exact Ea]. intros j fp H. discriminate.
+Qed.
